@@ -303,7 +303,9 @@ func (fr *Frame) call(st *State, v ssa.Value, cc *ssa.CallCommon, site ssa.Instr
 		}
 		ct := x.w.Contracts[key]
 		if ct != nil && ct.HasSpec && !ct.Inline {
+			x.curCallArgs, x.curCallFrame = cc.Args, fr
 			res := fr.applyContract(st, ct, callee, nil, args, pos)
+			x.curCallArgs, x.curCallFrame = nil, nil
 			fr.setResults(v, sig, res)
 			return
 		}
@@ -441,6 +443,10 @@ func outOfSubset(f *ssa.Function) string {
 	for _, a := range f.AnonFuncs {
 		if a.Synthetic != "" && strings.Contains(a.Synthetic, "range-over-func") {
 			return "range-over-func"
+		}
+		// a function literal that recovers from panics changes what a panic in the enclosing code means
+		if r := outOfSubset(a); r == "recover" {
+			return "recover"
 		}
 	}
 	return ""
@@ -921,12 +927,20 @@ func (fr *Frame) copyOp(st *State, v ssa.Value, cc *ssa.CallCommon, args []strin
 		x.havocSorts(st, x.leafSorts(elem, nil))
 		return
 	}
+	var srcStrTerm string
+	if ii, ok := basicInt(elem); ok && ii.w == 8 && !srcStr {
+		// byte strings: afterwards the first n bytes of dst are the first n bytes src had
+		srcStrTerm = x.bstrOf(st, sx("mk_slice", sx("sl_arr", src), sx("sl_off", src), n, x.subIdx(sx("sl_cap", src), c.idx(0))))
+	}
 	x.bulkWrite(st, elem, sx("sl_arr", dst), sx("sl_off", dst), n, func(i string, lp leafPath, pre map[string]string) string {
 		if srcStr {
 			return sx("s_at", src, i)
 		}
 		return x.sliceLeaf(src, i, lp, pre)
 	})
+	if srcStrTerm != "" {
+		c.assume(implies(st.Reach, eq(x.bstrOf(st, sx("mk_slice", sx("sl_arr", dst), sx("sl_off", dst), n, sx("sl_cap", dst))), srcStrTerm)))
+	}
 }
 
 // length of a slice expression when statically known (slice of *[N]T with constant bounds)
